@@ -193,6 +193,7 @@ def finish(prop, tier, seed, contracts, results, extra, t0, write_baseline=False
                                              "callees_inlined": sorted(f["inlined"]),
                                              "wall_s": round(f["wall_s"], 2)} for q, f in sorted(functions.items())},
             "by_backend": by_backend,
+            "max_open_after_incremental_check_per_task": max([r.get("inc_open", 0) for r in results] + [0]),
             "solver_time_s": round(solver_time, 2),
             "samples": samples,
             "bounded_standins": [o for o in extra if o.get("bounded")],
